@@ -13,6 +13,11 @@ HT = 'petl.io.html.'
 FMT = ('lineterminator', 'caption', 'index_header', 'truncate', 'vrepr', 'tr_style', 'td_styles')
 
 
+def same(xs, ys):
+    xs, ys = list(xs), list(ys)
+    return len(xs) == len(ys) and all(a is b for a, b in zip(xs, ys))
+
+
 def install(it):
     ctx = it.ctx
 
@@ -60,7 +65,7 @@ def common(h, is_tee):
             new = it.trace[ls.trace_start:]
             f = [e[1] for e in it.trace if e[0] == '_write_begin']
             ok = len(new) == 1 and new[0][0] == '_write_row' and len(f) == 1 and new[0][1] is f[0] and new[0][3] is x and new[0][2] is ls['hdr'] \
-                and tuple(new[0][4:]) == (A['lineterminator'], A['vrepr'], A['tr_style'], A['td_styles'], A['truncate'])
+                and same(new[0][4:], (A['lineterminator'], A['vrepr'], A['tr_style'], A['td_styles'], A['truncate']))
             goal = z3.BoolVal(bool(ok))
             if is_tee:
                 goal = z3.And(goal, dout.len == 1, z3.Select(dout.arr, 0) == as_v(x), z3.BoolVal(bool(marks) and marks[-1] == len(it.trace)))
@@ -106,7 +111,7 @@ def common(h, is_tee):
             beg = [e for e in tr if e[0] == '_write_begin']
             end = [e for e in tr if e[0] == '_write_end']
             rows = [i for i, e in enumerate(tr) if e[0] == '_write_row']
-            ok = len(beg) == 1 and len(end) == 1 and tuple(beg[0][3:]) == (A['lineterminator'], A['caption'], A['index_header'], A['truncate']) \
+            ok = len(beg) == 1 and len(end) == 1 and same(beg[0][3:], (A['lineterminator'], A['caption'], A['index_header'], A['truncate'])) \
                 and end[0][1] is beg[0][1] and end[0][2] is A['lineterminator'] \
                 and names.index('_write_begin') < names.index('_write_end') < names.index('f.flush') < names.index('f.detach') \
                 and all(names.index('_write_begin') < i < names.index('_write_end') for i in rows)
